@@ -81,6 +81,16 @@ def build_text(prog, variant):
     elif variant == "alloc":
         pre.append(f"  %c = memref.alloc() : {MT}")
         post.append(f'  "memref.dealloc"(%c) : ({MT}) -> ()')
+    elif variant == "alloc_mid":
+        # the local buffer is freed right after the last top-level statement that uses it, with other work following
+        pre.append(f"  %c = memref.alloc() : {MT}")
+        last = max(k for k, st in enumerate(prog) if ST.count((st,), lambda s: s[0] in ("D", "C") and "c" in s[1:]))
+        em2 = ST.Emitter(leaf_emit_factory(variant), [])
+        body_lines = []
+        em2._seq(prog[: last + 1], body_lines, "  ", [])
+        body_lines.append(f'  "memref.dealloc"(%c) : ({MT}) -> ()')
+        em2._seq(prog[last + 1 :], body_lines, "  ", [])
+        em = em2
     elif variant in ("sv", "sv2"):
         args.append(f"%cc : memref<16xi32>")
         pre.append(f"  %c = memref.subview %cc[0] [8] [1] : memref<16xi32> to {MT}")
@@ -132,6 +142,8 @@ def space(tier):
             continue
         if uses_c:
             out.append((p, "alloc"))
+            if ST.count(p[-1:], lambda s: s[0] in ("D", "C") and "c" in s[1:]) == 0 and ST.count(p[-1:], lambda s: s[0] in ("D", "C")) > 0:
+                out.append((p, "alloc_mid"))
             out.append((p, "sv"))
             if ST.count(p, lambda s: s[0] in ("D", "C") and "c" in s[1:]) >= 2:
                 out.append((p, "sv2"))
@@ -216,7 +228,7 @@ def evaluate(case, only=None, tier=None) -> CaseResult:
     b = BOUNDS[tier]
     ncores = b["cores"]
     out = base.clone()
-    pipeline = f"insert-sync-barrier,dispatch-regions{{nb_cores={ncores}}}" + (",snax-to-func" if b["to_func"] else "")
+    pipeline = f"insert-sync-barrier,dispatch-regions{{nb_cores={ncores}}}" + (",snax-to-func" if b["to_func"] or variant == "alloc_mid" else "")
     try:
         common.run_pipeline(out, pipeline)
     except Exception as e:
